@@ -1,6 +1,8 @@
 import Rooc.Drv.C01
 import Rooc.WellFormed
 import Rooc.LinErrText
+import Rooc.Compile
+import Rooc.Gen.Consts
 namespace Rooc.Drv.C08
 open Rooc Sexp
 /-- C08 shares the linearizer model requests of C01. -/
@@ -22,6 +24,24 @@ def handle (α : Type) [Arith α] [Wire α] : List Sexp → Sexp
     | none => app "err" [.atom "decode"]
   | r => Drv.C01.handle α r
 
+
+/-- the largest finite `f64`, `(2 − 2^−52)·2^1023`. -/
+def f64Max : Rat := ((2:Rat)^(1024:Nat)) - ((2:Rat)^(971:Nat))
+
+def outOfF64 : Ext Rat → Bool
+  | .fin q => decide (q > f64Max) || decide (q < -f64Max)
+  | _ => false
+
+/-- root cause of a non-finite output: does the EXACT compilation of the source (rational arithmetic, the
+implementation's tolerance `1e-9` and step limit) contain a coefficient, right-hand side or offset that is finite
+but outside the range of `f64`?  Then the `inf`/`NaN` in the implementation's output is the overflow of a value that
+really is that large (finding C08-f64-overflow); otherwise some step of the implementation lost a representable value. -/
+def exactOverflows (m : Model (Ext Rat)) : Bool :=
+  match Compile.linearize m (.fin ((1:Rat) / 1000000000)) Gen.boundsMaxSteps with
+  | .ok lm =>
+    lm.rows.any (fun r => r.coeffs.any outOfF64 || outOfF64 r.rhs) || lm.objective.any outOfF64 || outOfF64 lm.offset
+  | .error _ => false
+
 /-- exact oracle: the well-formedness predicate on the implementation's linear model. -/
 def oracle : List Sexp → Sexp
   | [.atom _, m, lm] =>
@@ -30,6 +50,8 @@ def oracle : List Sexp → Sexp
       let r := WF.report m lm
       let failing := r.failing ++ (if WF.occurringPresent m lm then [] else ["occurring-variable-missing"]) ++
         (if WF.domainOrdered m lm then [] else ["domain-not-ordered"])
+      let failing := failing.map fun f =>
+        if f == "non-finite-output" && WF.modelLitsFinite m && exactOverflows m then "f64-overflow-output" else f
       match failing with
       | [] => app "ok" []
       | f :: _ => app "violation" [.atom f, .list (failing.map .atom)]
